@@ -336,3 +336,42 @@ def kernel_view(kernels):
         for p, w in k.partons.items():
             d[p] = d.get(p, 0) + w
     return view
+
+
+# ---------------------------------------------------------------------------------------
+def lattice(tier="quick", processes=PROCESSES, kinds=SF_KINDS, flavors=HEAVYNESS, ptos=None, with_fonllparts=True):
+    """Cells of the configuration lattice read by the kernel collectors.
+
+    Yields dicts(process, projectile, scheme, nf_ff, nf, kind, flavor, pto, pto_evol, fonllparts).
+    nf: NfFF in the fixed-flavour and FONLL schemes (C06), 3..6 in ZM-VFNS.
+    """
+    if ptos is None:
+        ptos = ((0, 0), (1, 1), (2, 2), (3, 2), (3, 3)) if tier == "thorough" else ((1, 1), (3, 2))
+    for process in processes:
+        projs = ("electron", "positron") if process == "CC" else ("electron",)
+        for proj in projs:
+            for scheme in SCHEMES:
+                for nf_ff in (3, 4, 5):
+                    if scheme == "ZM-VFNS" and nf_ff != 3:
+                        continue
+                    nfs = (3, 4, 5, 6) if scheme == "ZM-VFNS" else (nf_ff,)
+                    parts = ("full", "massless", "massive") if (scheme.startswith("FONLL") and with_fonllparts) else ("full",)
+                    for nf in nfs:
+                        for fp in parts:
+                            for kind in kinds:
+                                for flavor in flavors:
+                                    for pto, pto_evol in ptos:
+                                        yield dict(process=process, projectile=proj, scheme=scheme, nf_ff=nf_ff, nf=nf, kind=kind, flavor=flavor, pto=pto, pto_evol=pto_evol, fonllparts=fp)
+
+
+def cell_name(c):
+    return f"{c['process']}/{c['projectile']}/{c['scheme']}{c['nf_ff']}/nf={c['nf']}/{c['fonllparts']}/{c['kind']}_{c['flavor']}/pto={c['pto']},{c['pto_evol']}"
+
+
+def cell_configs(sy, c, pos_charge=None, target=None, sv=None):
+    cfg = make_configs(sy, process=c["process"], projectile=c["projectile"], scheme=c["scheme"], nf_ff=c["nf_ff"], pto=c["pto"], pto_evol=c["pto_evol"], fonllparts=c["fonllparts"], pos_charge=pos_charge, target=target, sv=sv)
+    cfg.managers["coupling_constants"] = WStub(sy, c["process"], PROJECTILES[c["projectile"]], pos_charge)
+    return cfg
+
+
+INTERNAL_ERRORS = (KeyError, IndexError, AttributeError, ModuleNotFoundError, ImportError, TypeError, NameError, ZeroDivisionError, UnboundLocalError)
